@@ -12,7 +12,7 @@ CONSTANTS DevEarlyReturn,        \* process returns before clean_files when noth
           DevDepsOnSuccessOnly,  \* dependencies are recorded only for modules that loaded
           DevDepsOnExistingOnly, \* dependencies are recorded only for modules that exist (a missing module is not tracked)
           DevCreateNoNotify,     \* a Create event only runs collect_work; dependents of the new file are not restarted
-          Sources, Modules, DirOf, Dirs, Requires, Configs, SerKey, MaxVer, MaxSteps, MaxIdx
+          Sources, Modules, DirOf, Dirs, Requires, Configs, SerKey, Eff, MaxVer, MaxSteps, MaxIdx
 
 Files == Sources \cup Modules
 NoVer == -1
@@ -32,7 +32,7 @@ NodeOf(p) == CHOOSE i \in Idx : Live(i) /\ slots[i].p = p
 Stamp(s, c) ==
   IF ~Good(s) THEN NoStamp
   ELSE IF \E m \in Requires[s] : ~Good(m) THEN NoStamp
-  ELSE [v |-> inp[s], c |-> c, d |-> {<<m, inp[m]>> : m \in Requires[s]}]
+  ELSE [v |-> inp[s], c |-> Eff[c][s], d |-> {<<m, inp[m]>> : m \in Requires[s]}]   \* Eff: what configuration c amounts to ON FILE s (rule filters)
 Expected == [s \in Sources |-> IF Exists(s) THEN Stamp(s, cfg) ELSE NoStamp]
 
 \* insert_source: reuse most recently freed slot, else the lowest never-used one
